@@ -205,6 +205,16 @@ CHECKS = {
             "k<=1 for d=1..12 and all pairs at d in {1,4} (thorough {1,2,4,12}).",
             "trusted: lxml/libxml2 XSD validation; the lexical scan regex -?\\d+(\\.\\d+)? over the numeric leaf elements",
             "DESIGN.md §4 C03"),
+    "C15": ("explicit-state BFS over histories of writer constructions and write calls on real writers and real files, with a "
+            "differential oracle against the pristine history [construct identical writer, same call]",
+            "Operations: construct a writer (XML/protobuf x precisions {1,12} (thorough {1,4,12}) x 2 scenarios; at most 2 "
+            "(thorough 3) writers alive), write_to_file / write_scenario_to_file to fresh paths, write_to_file onto an existing "
+            "file with SKIP and ALWAYS. Depth 4 (thorough 5), sharded by the first two operations, states de-duplicated on the "
+            "writers' parameters and write counts plus the process-global precision. Every produced file (date masked) must "
+            "equal the pristine file byte for byte and read back to the scenario; SKIP leaves bytes untouched.",
+            "trusted: date masking (regex for XML, message field clear + deterministic serialisation for protobuf); the "
+            "pristine reference is produced in the same process by constructing and immediately using a writer",
+            "DESIGN.md §4 C15"),
 }
 
 NOT_YET = {}
